@@ -358,6 +358,10 @@ def heredoc_corpus():
         for op, d, body in (("<< ", "-E", "x\n"), ("<< ", "-", "y\n"), ("<<- ", "-E", "\tz\n"), ("<< ", "--", ""), ("<<", "'-E'", "q\n"), ("<< ", "-E-", "- E\n")):
             dl = d.strip("'")
             out.append(first.replace("{H}", op + d) + "\n" + body + ("\t" if op.startswith("<<-") else "") + dl + "\n" + rest)
+    # the empty delimiter, and delimiters whose quoting is nested
+    for first, rest in ctxs[:6] + [("cat {H}", "")]:
+        out.append(first.replace("{H}", "<<''") + "\nx\n\n" + rest)
+        out.append(first.replace("{H}", "<<\"a\\\"b\"") + "\n$x\na\"b\n" + rest)
     # two here-documents on one line, the second body with a multi-line expansion
     for first, rest in ctxs[:6]:
         out.append(first.replace("{H}", "<<A <<B") + "\n1\nA\n$(\n\tx\n)\nB\n" + rest)
@@ -434,7 +438,8 @@ def illformed_contexts():
     # complete the command outside the substitution
     for inner, tail in (("case x in a", " b ;; esac)"), ("case x in a", ""), ("case x in", " a) b ;; esac)"), ("if a", "; then b; fi)"), ("if a; then b", "; fi)"),
                         ("( a", " )"), ("{ a;", " })"), ("while a", "; do b; done)"), ("for i in 1", "; do :; done)"), ("a | ( b", ")"),
-                        ("case x in (a", " b ;; esac)"), ("case x in a|b", " c ;; esac)"), ("until a; do b", "; done)"), ("f() { a;", " })")):
+                        ("case x in (a", " b ;; esac)"), ("case x in a|b", " c ;; esac)"), ("until a; do b", "; done)"), ("f() { a;", " })"),
+                        ("f(", " { :; })"), ("f(", ") { :; }"), ("f(", ""), ("g (", " { :; })"), ("a; f(", " ( b ))")):
         for c in ("echo `X`T", "echo \"`X`\"T", "x=`X`T", "cat <<E\n`X`T\nE\n", "echo ${y:-`X`T}", "`X`T", "echo $(echo `X`T)"):
             out.append(c.replace("X", inner).replace("T", tail))
             out.append(c.replace("X", inner).replace("T", ""))
